@@ -60,6 +60,8 @@ func c05Cases(cfg vlib.Cfg) []*c05Spec {
 			sp = c05DoneStormCase(r)
 		case i%40 == 27:
 			sp = c05SlotStarveCase(r)
+		case i%40 == 17:
+			sp = c05EarlyContextCase(r)
 		case i%3 == 1:
 			sp = c05PairCase(r, i/3)
 		case i%30 == 11:
@@ -453,6 +455,63 @@ func c05SlotStarveCase(r *vlib.Rand) *c05Spec {
 	sp.WaitHit = "modules.task.cleared|qt"
 	if r.Bool() {
 		sp.Mgmt, sp.StopVia, sp.Disable = true, "manage", []string{"ma"}
+	}
+	return sp
+}
+
+// c05EarlyContextCase: work that was handed a module context before the start cycle in
+// which the module is finally stopped: (i) items launched by a start routine whose
+// attempt then failed (the module is started again by a later management pass), (ii)
+// items launched by the prep routine. P1 covers every context handed to the module's
+// items since registration; the items that stay until the stop routine runs also
+// exercise P2 for work of an earlier attempt.
+func c05EarlyContextCase(r *vlib.Rand) *c05Spec {
+	sp := &c05Spec{Limit: 64, StopTimeoutMs: c05StopTimeoutMs, StopVia: "shutdown"}
+	withFail := r.Chance(2, 3)
+	withPrep := !withFail || r.Bool()
+	sp.Class = "earlyctx:"
+	dep := &c05Mod{Name: "m0", StopDelayMs: 0}
+	dep.Items = append(dep.Items, &c05Item{ID: "m0-w", Kind: kWorker, Settled: true, Wait: "ctx", Cycle: 1})
+	ms := &c05Mod{Name: "ma", Deps: []string{"m0"}, StopDelayMs: vlib.Pick(r, 0, 1, 5)}
+	kinds := []string{kWorker, kSvc, "mt_start_med", "mt_start_high", "mt_start_low"}
+	wait := func(it *c05Item) {
+		if r.Chance(2, 3) {
+			it.Wait, it.Latch = "latch", "stopfn.begin|ma"
+		} else {
+			it.Wait = "ctx"
+		}
+		it.LingerMs = vlib.Pick(r, 0, 1, 5)
+	}
+	lastCycle := 1
+	if withFail {
+		sp.Class += "failed-start"
+		sp.Mgmt = true
+		sp.FailStart = []string{"ma"}
+		lastCycle = 2
+		n := r.Range(2, 4)
+		for j := 0; j < n; j++ {
+			it := &c05Item{ID: fmt.Sprintf("ma-f%d", j), Kind: vlib.Pick(r, kinds...), Settled: true, FromStart: true, Cycle: 1}
+			wait(it)
+			ms.Items = append(ms.Items, it)
+		}
+	}
+	if withPrep {
+		sp.Class += "+prep"
+		n := r.Range(1, 3)
+		for j := 0; j < n; j++ {
+			it := &c05Item{ID: fmt.Sprintf("ma-p%d", j), Kind: vlib.Pick(r, kinds...), Settled: true, FromPrep: true, Cycle: 1}
+			wait(it)
+			ms.Items = append(ms.Items, it)
+		}
+	}
+	n := r.Range(1, 3)
+	for j := 0; j < n; j++ {
+		ms.Items = append(ms.Items, &c05Item{ID: fmt.Sprintf("ma-i%d", j), Kind: vlib.Pick(r, kWorker, kWorkerRun, "mt_run_med", "mt_sig_low", kSvc), Settled: true,
+			Wait: "ctx", LingerMs: vlib.Pick(r, 0, 1, 5), Cycle: lastCycle, DoneCalls: 1, FromStart: false})
+	}
+	sp.Mods = []*c05Mod{ms, dep}
+	if sp.Mgmt && r.Bool() {
+		sp.StopVia, sp.Disable = "manage", []string{"ma"}
 	}
 	return sp
 }
